@@ -19,6 +19,7 @@ theorem setCookieSites_ok : setCookieSites = ([
 
 theorem skel_MakeCookieFromOptions_ok : skel_MakeCookieFromOptions = ([
   "if domain == \"\" && len(opts.Domains) > 0",
+  "strings.Join",
   "if expiration > time.Duration(0)",
   "if expiration < time.Duration(0)",
   "return c"] : List String) := rfl
@@ -30,5 +31,27 @@ theorem skel_GetCookieDomain_ok : skel_GetCookieDomain = ([
   "strings.HasSuffix",
   "return domain",
   "return \"\""] : List String) := rfl
+
+theorem skel_csrf_SetCookie_ok : skel_csrf_SetCookie = ([
+  "if err != nil",
+  "return nil, err",
+  "MakeCookieFromOptions",
+  "http.SetCookie",
+  "return cookie, nil"] : List String) := rfl
+
+theorem skel_csrf_ClearCookie_ok : skel_csrf_ClearCookie = ([
+  "http.SetCookie",
+  "MakeCookieFromOptions"] : List String) := rfl
+
+theorem skel_SessionStore_makeSessionCookie_ok : skel_SessionStore_makeSessionCookie = ([
+  "if strValue != \"\"",
+  "encryption.SignedValue",
+  "if err != nil",
+  "return nil, err",
+  "s.makeCookie",
+  "if len(c.String()) > maxCookieLength",
+  "return splitCookie(c), nil",
+  "splitCookie",
+  "return []*http.Cookie{c}, nil"] : List String) := rfl
 
 end O2P.Expect.C18
